@@ -13,6 +13,14 @@ def attrInvalid : Nat := 2^31
 /-- style.go:40 -/
 def styleInvalid : Style := { attrs := attrInvalid }
 
+/-- THE SWITCH for the locked-neighbour repair (fixes/C13-wide-left-of-locked.patch): `false` = pinned tree (a wide rune in
+    the column left of a locked cell is written as a two-column glyph, tscreen.go:943), `true` once the patch is committed
+    in /repo: drawCell shows such a rune as a blank of width 1 (the policy of the last column) and LockRegion(…, false)
+    marks a wide rune just left of the unlocked region dirty so that it is drawn again.  The constant is only the
+    *default* of `DrawCfg.guardLocked`: both behaviours stay modelled, the theorems quantify over the configuration, and
+    the correspondence driver takes the variant from the case line (`+lg` after the entry name, see Driver/Draw.lean). -/
+def currentGuardsLockedNeighbour : Bool := true
+
 /-- static configuration of a screen as far as drawing is concerned -/
 structure DrawCfg where
   rw : Rune → Int
@@ -21,6 +29,13 @@ structure DrawCfg where
   hasCursorStyle : Nat → Bool := fun _ => false -- t.cursorStyles has an entry for this style (tscreen.go:979)
   hasCursorRGB : Bool := false                  -- t.cursorRGB ≠ "" (always, after prepareCursorStyles)
   cornerTrick : Bool                            -- ti.AutoMargin ∧ ti.DisableAutoMargin = "" ∧ ti.InsertChar ≠ ""  (tscreen.go:815)
+  guardLocked : Bool := currentGuardsLockedNeighbour  -- drawCell tests `t.cells.locked(x+1, y)` (repaired tree only)
+
+/-- the configurations the Layer-A invariant proofs of C01/C13 cover: no bottom-right insert-character trick, and the
+    pinned drawCell (no locked-neighbour guard).  For `guardLocked = true` see `Tcell.Props.C13` (repaired variant). -/
+structure DrawCfg.Plain (c : DrawCfg) : Prop where
+  ct : c.cornerTrick = false
+  ng : c.guardLocked = false
 
 /-- abstract commands emitted by the draw path, in order; `Render.render` turns each into bytes -/
 inductive Cmd where
@@ -51,6 +66,9 @@ structure Scr where
   cursorShaped : Bool := false   -- a non-default cursor shape has been sent
   cursorTinted : Bool := false   -- a cursor colour has been sent
 
+/-- repaired tree only: `CellBuffer.locked` (added to cell.go by fixes/C13-wide-left-of-locked.patch): in range and locked -/
+def Buf.locked (b : Buf) (x y : Int) : Bool := if b.inRange x y then (b.cells x y).lock else false
+
 namespace Scr
 
 /-- tscreen.go:1035 hideCursor -/
@@ -70,12 +88,17 @@ def cellText (c : DrawCfg) (w x : Int) (mainc : Rune) (combc : List Rune) (width
   let str := if width1 > 1 ∧ str = [63] then [63, 32] else str
   if x > w - width1 then ([32], 1) else (str, width1)
 
+/-- repaired tree only (fixes/C13-wide-left-of-locked.patch): `if x > t.w-width || (width > 1 && t.cells.locked(x+1, y))`
+    — `nl` = the guard is compiled in and the next column is locked: the wide rune is shown as a blank of width 1 -/
+def cellTextG (c : DrawCfg) (w x : Int) (mainc : Rune) (combc : List Rune) (width : Int) (nl : Bool) : List Nat × Int :=
+  if nl = true ∧ width > 1 then ([32], 1) else cellText c w x mainc combc width
+
 /-- painting part of drawCell for a dirty cell once the cursor is in place (tscreen.go:838-948) -/
 def paint (c : DrawCfg) (s : Scr) (x y : Int) : Scr × List Cmd × Int :=
   let (mainc, combc, style, width) := s.cells.getContent x y
   let style := if style = ({} : Style) then s.style else style
   let penCmds := if style ≠ s.curstyle then [Cmd.setPen style] else []
-  let (str, width2) := cellText c s.w x mainc combc width
+  let (str, width2) := cellTextG c s.w x mainc combc width (c.guardLocked && s.cells.locked (x + 1) y)
   let cx := if width2 > 1 then -1 else s.cx + width2
   ({ s with curstyle := style, cx := cx, cells := s.cells.setDirty x y false }, penCmds ++ [.put str width2], width2)
 
@@ -87,14 +110,33 @@ def drawCellPlain (c : DrawCfg) (s : Scr) (x y : Int) : Scr × List Cmd × Int :
     let (s2, cmds, wd) := paint c s1 x y
     (s2, g ++ cmds, wd)
 
+/-- start column of the cell that covers column `x - 1` of row `y` in the row-major scan of `draw`: the Go loop
+`px := 0; for cx := 0; cx < x; { w := width(cx, y) (at least 1); px = cx; cx += w }` of the repaired corner trick
+(fix "the corner trick repaints the wide character it clobbered"); fuel = number of columns -/
+def coverStart (cells : Buf) (y : Int) : Nat → Int → Int → Int
+  | 0, cx, _ => cx
+  | fuel + 1, cx, x =>
+    let w := (cells.getContent cx y).2.2.2
+    let w := if w < 1 then 1 else w
+    if cx + w < x then coverStart cells y fuel (cx + w) x else cx
+
+/-- `true`: the tree repaints, after `ich1`, the cell that *covers* the second to last column (the wide character whose
+right half the trick clobbered); `false`: the pinned tree, which always repaints column `x - 1` itself -/
+def currentCornerRepaintsCover : Bool := true
+
+/-- the column repainted after `ich1` in the corner trick -/
+def cornerPx (s1 : Scr) (x y : Int) : Int :=
+  if currentCornerRepaintsCover then coverStart s1.cells y x.toNat 0 x else x - 1
+
 /-- tscreen.go:806 drawCell -/
 def drawCell (c : DrawCfg) (s : Scr) (x y : Int) : Scr × List Cmd × Int :=
   if ¬ s.cells.dirty x y then (s, [], (s.cells.getContent x y).2.2.2)
   else if y = s.h - 1 ∧ x = s.w - 1 ∧ c.cornerTrick then
     -- write what belongs in the last cell one column to the left, shift it into place with ich1, repaint the neighbour
     let (s1, cmds1, wd) := paint c s x y
-    let s2 := { s1 with cy := y, cx := x - 1, cells := s1.cells.setDirty (x - 1) y true }
-    let (s3, cmds3, _) := drawCellPlain c s2 (x - 1) y
+    let px := cornerPx s1 x y
+    let s2 := { s1 with cy := y, cx := x - 1, cells := s1.cells.setDirty px y true }
+    let (s3, cmds3, _) := drawCellPlain c s2 px y
     ({ s3 with cx := 0, cy := 0 },
      [Cmd.goto (x - 1) y] ++ cmds1 ++ [.goto (x - 1) y, .insertChar] ++ cmds3 ++ [.goto 0 0], wd)
   else drawCellPlain c s x y
